@@ -2176,6 +2176,7 @@ class Exec:
                 callee_c = copy.copy(callee_c)
                 callee_c.ensures_each = saved_c.ensures_each  # the inlined callee builds the caller's result list
                 callee_c.raises = saved_c.raises
+                callee_c.each_local = saved_c.each_local
             self.c = callee_c
         self.call_depth += 1
         try:
